@@ -620,7 +620,9 @@ func (router *Router) processOTLPRequest(
 	// get environment name - will be empty for legacy keys
 	environment, err := router.getEnvironmentName(apiKey)
 	if err != nil {
-		return nil
+		// Nothing has been processed: report the failure instead of answering success
+		// for events that were dropped.
+		return fmt.Errorf("failed to look up environment for API key: %w", err)
 	}
 	totalEvents := 0
 	for _, batch := range batches {
@@ -660,7 +662,9 @@ func (router *Router) processOTLPRequestBatchMsgp(
 	// get environment name - will be empty for legacy keys
 	environment, err := router.getEnvironmentName(apiKey)
 	if err != nil {
-		return nil
+		// Nothing has been processed: report the failure instead of answering success
+		// for events that were dropped.
+		return fmt.Errorf("failed to look up environment for API key: %w", err)
 	}
 	totalEvents := 0
 	for _, batch := range batches {
